@@ -76,10 +76,11 @@ BYTE_WRITERS = ("write_header_and_update_offset", "update_row_count", "Write")
 
 # rules that keep their verdict however the code is laid out (decided by term equality, effect analysis or dominance over
 # resolved calls); every other rule of this check is a template rule (vcheck.core.Check.obt)
-SEMANTIC = ('R03.1a', 'R03.1b', 'R03.1c', 'R03.1e', 'R03.2b', 'R03.2c', 'R03.2d', 'R03.2f', 'R03.3d', 'R03.4c', 'R03.5', 'R03.8',
+SEMANTIC = ('R03.1a', 'R03.1b', 'R03.1c', 'R03.1e', 'R03.2b', 'R03.2c', 'R03.2d', 'R03.2f', 'R03.3d', 'R03.4c', 'R03.4e', 'R03.5', 'R03.8',
             'R03.6::esutil.sfile.write::append=', 'R03.6::esutil.sfile.write::header-option-reaches-SFile.write',
             'R03.6::esutil.sfile.write::append-option-reaches-every-writing-path', 'R03.3f', 'R03.3g', 'R03.3h',
-            'R03.7::esutil.recfile.Util.Recfile.write::text-chunk-native')
+            'R03.7::esutil.recfile.Util.Recfile.write::text-chunk-native',
+            'R03.7::esutil.recfile.Util.Recfile.write::chunk-in-element-order')
 
 
 def run(chk):
@@ -111,6 +112,7 @@ def run(chk):
         chk.analysed_unit(nm)
 
     ceff = _CEff(cfun)
+    ceff.decls = decls
     r03_1(chk, repo, sf_write, SFile_open, Rec_open, cfun, decls, ceff.lookup)
     r03_2(chk, repo, SFile_write)
     measures = []       # (who, expression, chunk parameter, where): what the Python side adds to / records as the row count
@@ -1409,6 +1411,81 @@ class _CConst:
             ret = rets[0]
         out = IN.get(ccfg.exit.id)
         return set(IN), ret, (None if out is None else {q: v for q, v in out.items() if q[0] == "m"})
+
+
+class _CArgValues(_CConst):
+    """the constant propagation of _CConst that also records, for every call of a watched callee, the abstract values of its
+    arguments on each visit of the call (the last visit is the one with the joined environment of every way of reaching it)"""
+
+    def __init__(self, lookup, decls, watch, budget=60000):
+        _CConst.__init__(self, lookup, decls, budget)
+        self.watch = set(watch)
+        self.seen = {}
+
+    def ev(self, n, env, ctx):
+        if n.get("kind") in ("CallExpr", "CXXMemberCallExpr") and cfront.callee_name(n) in self.watch:
+            vals = []
+            for a in cfront.call_args(n):
+                try:
+                    vals.append(_CConst.ev(self, a, dict(env), ctx))
+                except _CDead:
+                    vals.append(None)
+            self.seen.setdefault(id(n), []).append(vals)
+        return _CConst.ev(self, n, env, ctx)
+
+
+def _c_arg_constant(ceff, decl, call, argidx):
+    """the integer / string constant that argument `argidx` of `call` (a call node of function `decl`) has on every way of
+    reaching the call -- a literal, a macro, a local or a file-scope `const` / `constexpr` / `static const` with a constant
+    initialiser, a conditional with equal arms ... -- else None"""
+    args = cfront.call_args(call)
+    if argidx >= len(args):
+        return None
+    declared = {x.get("name") for x in cfront.walk(decl) if x.get("kind") in ("VarDecl", "ParmVarDecl") and x.get("name")}
+    locals_defs = _c_local_def_nodes(decl)
+    todo, outer, seen = [args[argidx]], [], set()
+    while todo:
+        for x in cfront.walk(todo.pop()):
+            if x.get("kind") == "DeclRefExpr" and x.get("referencedDecl", {}).get("kind") == "VarDecl":
+                nm = x["referencedDecl"].get("name")
+                if not nm or nm in seen:
+                    continue
+                seen.add(nm)
+                if nm in declared:
+                    if nm in locals_defs:
+                        todo.append(locals_defs[nm])
+                else:
+                    outer.append(nm)
+    extra = []
+    for nm in outer:
+        extra.extend(ceff.load_decls(nm) or [])
+    try:
+        cc = _CArgValues(ceff.lookup, list(getattr(ceff, "decls", None) or []) + extra, {cfront.callee_name(call)})
+        # file-scope constants whose initialiser is a constant expression rather than a literal
+        cands = {}
+        for d in extra:
+            for x in cfront.walk(d):
+                if x.get("kind") == "VarDecl" and x.get("name") in outer:
+                    cands.setdefault(x["name"], []).append(x)
+        ctx0 = dict(declared=set(), ul=set(), stack=(), method=False)
+        for nm, ds in cands.items():
+            qt = str(ds[0].get("type", {}).get("qualType", ""))
+            if nm in cc.statics or len(ds) != 1 or not qt.startswith("const ") or "*" in qt or "&" in qt:
+                continue
+            init = _c_kids(ds[0])
+            v = cc.ev(init[-1], {}, ctx0) if init else None
+            if isinstance(v, int):
+                cc.statics[nm] = v
+        cc.run(decl, [])
+    except (_TooBig, _CDead, AnalysisError, RecursionError, KeyError, TypeError):
+        return None
+    visits = cc.seen.get(id(call))
+    if not visits:
+        return None
+    vs = [v[argidx] if argidx < len(v) else None for v in visits]
+    if all(v is not None and type(v) is type(vs[0]) and v == vs[0] for v in vs):
+        return vs[0]
+    return None
 
 
 # ---------------------------------------------------------------------------
@@ -3421,15 +3498,25 @@ class _CEff:
             self._src = "\n".join(txt)
         return re.search(r"(?m)^[^\n;(){}=]*\b%s\s*\([^;{}]*\)\s*(?:const\s*)?\{" % re.escape(name), self._src) is not None
 
+    def load_decls(self, name):
+        """top-level declarations of the TU whose name matches `name` (file-scope constants, local helpers), [] when the dump fails"""
+        if not hasattr(self, "_decl_cache"):
+            self._decl_cache = {}
+        if name not in self._decl_cache:
+            key = "%s@%s" % (self.tu, name)
+            cfront.TUS[key] = dict(cfront.TUS[self.tu], filt=name)
+            try:
+                self._decl_cache[name] = cfront.load_tu(key, _raw=True)
+            except AnalysisError:
+                self._decl_cache[name] = None
+            finally:
+                cfront.TUS.pop(key, None)
+        return self._decl_cache[name]
+
     def _load(self, name):
-        key = "%s@%s" % (self.tu, name)
-        cfront.TUS[key] = dict(cfront.TUS[self.tu], filt=name)
-        try:
-            decls = cfront.load_tu(key, _raw=True)
-        except AnalysisError:
+        decls = self.load_decls(name)
+        if decls is None:
             return None
-        finally:
-            cfront.TUS.pop(key, None)
         d = cfront.functions(decls).get(name)
         return d if d is not None and cfront.has_body(d) else None
 
@@ -3604,12 +3691,14 @@ def r03_4(chk, repo, cfun, ceff, first_fmts=()):
     urc = cfun["Records::update_row_count"]
     # the format of the line the C++ updater writes: the literal of the fprintf / snprintf that takes the row count
     cfmts = set()
+    cfmt_at = {}        # format literal -> (call, index of the format argument)
     for c in cfront.calls_in(urc):
         if cfront.callee_name(c) in ("fprintf",) + FMT_PRIMS:
-            for a in cfront.call_args(c):
+            for i, a in enumerate(cfront.call_args(c)):
                 l = _CEff._lit(a)
                 if l is not None and printf_directives(l)["directives"] and l != "%s":
                     cfmts.add(l)
+                    cfmt_at[l] = (c, i)
     cfmt = next(iter(cfmts)) if len(cfmts) == 1 else None
     chk.ob("R03.4a", "size-line::formats-found", True if (pyfmt is not None and cfmt is not None) else None, gs.where(),
            "python SIZE format %r, C++ SIZE format %r%s" % (pyfmt, cfmt, "" if pyfmt is not None and cfmt is not None else
@@ -3623,9 +3712,25 @@ def r03_4(chk, repo, cfun, ceff, first_fmts=()):
                % (pd["literal_prefix"], cd["literal_prefix"]))
         wp = pd["directives"][0]["width"] if pd["directives"] else None
         wc = cd["directives"][0]["width"] if cd["directives"] else None
-        chk.ob("R03.4b", "size-line::same-field-width", wp is not None and wp == wc, gs.where(),
-               "field widths agree (python %s, C++ %s)" % (wp, wc))
-        chk.ob("R03.4b", "size-line::width-holds-int64", (wp or 0) >= 20 and (wc or 0) >= 20, gs.where(),
+        # a width given as an argument (`%*ld`, width): the field is as wide as the constant that argument evaluates to on every
+        # way of reaching the call (a literal, a macro, a named constant); a negative one means left-justified in |width|
+        star_c = bool(cd["directives"]) and cd["directives"][0]["suppress"] and wc is None
+        star_p = bool(pd["directives"]) and pd["directives"][0]["suppress"] and wp is None
+        unknown_width = star_p
+        if star_c:
+            call, fi_ = cfmt_at[cfmt]
+            v = _c_arg_constant(ceff, urc, call, fi_ + 1)
+            if isinstance(v, int) and not isinstance(v, bool):
+                wc = abs(v)
+                if v < 0 and "-" not in cd["directives"][0]["flags"]:
+                    cd["directives"][0]["flags"] += "-"
+            else:
+                unknown_width = True
+        wtxt = "%s%s" % (wc, " (the constant value of the `*` width argument)" if star_c and wc is not None else "")
+        chk.ob("R03.4b", "size-line::same-field-width", None if unknown_width else (wp is not None and wp == wc), gs.where(),
+               "field widths agree (python %s, C++ %s)%s" % (wp, wtxt, " -- a `*` width whose argument is not a recognised constant"
+                                                              if unknown_width else ""))
+        chk.ob("R03.4b", "size-line::width-holds-int64", None if unknown_width else ((wp or 0) >= 20 and (wc or 0) >= 20), gs.where(),
                "width >= 20 holds any 64-bit count without growing the line")
         okconv = bool(pd["directives"]) and bool(cd["directives"]) and pd["directives"][0]["conv"] in "di" and cd["directives"][0]["conv"] in "di" \
             and cd["directives"][0]["length"] in ("l", "ll") and pd["directives"][0]["flags"] == cd["directives"][0]["flags"]
@@ -3646,18 +3751,304 @@ def r03_4(chk, repo, cfun, ceff, first_fmts=()):
     # write_header_and_update_offset: ftell after fprintf
     who = cfun["Records::write_header_and_update_offset"]
     order = []
-    for n in cfront.CCFG(who).nodes:
-        if n.c is None:
-            continue
-        for x in cfront.walk(n.c):
-            if x.get("kind") in ("CallExpr", "CXXMemberCallExpr"):
-                nm = cfront.callee_name(x)
-                if nm in ("fprintf", "ftell", "fputs", "fwrite"):
-                    order.append(nm)
-    ok = "ftell" in order and any(w in order for w in ("fprintf", "fputs", "fwrite")) and \
-        order.index("ftell") > min(order.index(w) for w in ("fprintf", "fputs", "fwrite") if w in order)
+    tells = ("ftell", "ftello", "ftello64", "_ftelli64", "fgetpos")
+    try:
+        fmtbufs_w = ceff.fmt_buffers(who)
+        for n in cfront.CCFG(who).nodes:
+            if n.c is None:
+                continue
+            for x in cfront.walk(n.c):
+                if x.get("kind") in ("CallExpr", "CXXMemberCallExpr"):
+                    nm = cfront.callee_name(x)
+                    if nm in tells:
+                        order.append("ftell")
+                    elif nm in ("fprintf", "fputs", "fwrite"):
+                        order.append(nm)
+                    elif nm and any(e.startswith("out") for s_ in ceff.call_events(x, fmtbufs_w) for e in s_):
+                        order.append(nm)        # another output primitive, or a helper that writes to the stream
+    except _TooBig:
+        order = []
+    writes = [i for i, nm in enumerate(order) if nm != "ftell"]
+    ok = "ftell" in order and bool(writes) and order.index("ftell") > min(writes)
     chk.ob("R03.4d", "Records::write_header_and_update_offset::offset-after-header", ok, "esutil/recfile/records.cpp",
            "the data offset is taken (ftell) after the header text has been written (call order %s)" % order)
+    _header_text_verbatim(chk, cfun, ceff)
+
+
+# -- R03.4e: the header text given by the caller reaches the file as it is -------------------------------------------------------
+# "The user header given at creation is retained unchanged": the text handed to Records::write_header_and_update_offset must be
+# written byte for byte.  Followed as a value through the function (and the helpers it hands the text to): the text may reach an
+# output primitive only as DATA -- the operand of a plain `%s` of a constant format, of fputs / fputc / fwrite -- never as the
+# format of a printf-family call (every '%' in it would be interpreted), and never through a `%.Ns` that cuts it.
+_C_TEXT_TYPE = re.compile(r"char|string|PyObject|void \*|stream|auto|^$")
+_C_NOT_TEXT_METHODS = ("size", "length", "empty", "compare", "find", "rfind", "capacity", "max_size", "find_first_of", "find_last_of")
+_C_STORE_METHODS = ("append", "assign", "insert", "push_back", "replace", "write", "str", "operator=", "operator+=", "operator<<")
+_C_COPY_PRIMS = ("strcpy", "strncpy", "strcat", "strncat", "memcpy", "memmove", "stpcpy", "strlcpy", "strlcat")
+
+
+def _c_texty(n):
+    return bool(_C_TEXT_TYPE.search(str(n.get("type", {}).get("qualType", ""))))
+
+
+def _c_inner(n):
+    kids = _c_kids(n)
+    return kids[-1 if n.get("kind") == "CXXFunctionalCastExpr" else 0] if kids else None
+
+
+def _c_lkey(n):
+    """('l', local) / ('m', member of this) that an expression designates or points into, else None"""
+    while isinstance(n, dict):
+        k = n.get("kind")
+        if k in _C_WRAPPERS and _c_kids(n):
+            n = _c_inner(n)
+        elif k in ("ArraySubscriptExpr",) and _c_kids(n):
+            n = _c_kids(n)[0]
+        elif k == "UnaryOperator" and n.get("opcode") in ("&", "*") and _c_kids(n):
+            n = _c_kids(n)[0]
+        elif k == "CXXOperatorCallExpr" and cfront.callee_name(n) == "operator[]" and len(_c_kids(n)) >= 2:
+            n = _c_kids(n)[1]
+        elif k == "CXXMemberCallExpr" and _c_kids(n) and cfront.strip(_c_kids(n)[0]).get("kind") == "MemberExpr" \
+                and cfront.strip(_c_kids(n)[0]).get("name") in ("c_str", "data", "begin", "str"):
+            n = _c_inner(cfront.strip(_c_kids(n)[0]))
+        else:
+            break
+    if not isinstance(n, dict):
+        return None
+    if n.get("kind") == "DeclRefExpr" and n.get("referencedDecl", {}).get("kind") in ("VarDecl", "ParmVarDecl"):
+        return ("l", n["referencedDecl"].get("name"))
+    if n.get("kind") == "MemberExpr" and _c_kids(n) and cfront.strip(_c_kids(n)[0]).get("kind") == "CXXThisExpr":
+        return ("m", n.get("name"))
+    return None
+
+
+def _c_carries(n, T):
+    """does the value of the expression contain (characters of) a text held in one of the variables T?"""
+    if not isinstance(n, dict):
+        return False
+    k = n.get("kind")
+    kids = _c_kids(n)
+    if k in _C_WRAPPERS and kids:
+        return _c_carries(_c_inner(n), T)
+    if k == "DeclRefExpr":
+        return ("l", n.get("referencedDecl", {}).get("name")) in T and n.get("referencedDecl", {}).get("kind") in ("VarDecl", "ParmVarDecl")
+    if k == "MemberExpr":
+        key = _c_lkey(n)
+        if key is not None:
+            return key in T
+        return bool(kids) and _c_carries(kids[0], T)
+    if k == "CXXMemberCallExpr" and kids:
+        c = cfront.strip(kids[0])
+        if c.get("kind") == "MemberExpr":
+            if c.get("name") in _C_NOT_TEXT_METHODS or not _c_texty(n):
+                return False
+            obj = _c_inner(c)
+            return (obj is not None and _c_carries(obj, T)) or any(_c_carries(a, T) for a in kids[1:])
+        return False
+    if k == "CallExpr" and kids:
+        return _c_texty(n) and any(_c_carries(a, T) for a in kids[1:])
+    if k in ("CXXConstructExpr", "CXXTemporaryObjectExpr", "InitListExpr"):
+        return any(_c_carries(a, T) for a in kids)
+    if k == "CXXOperatorCallExpr" and kids:
+        return _c_texty(n) and any(_c_carries(a, T) for a in kids[1:])
+    if k == "ConditionalOperator" and len(kids) == 3:
+        return _c_carries(kids[1], T) or _c_carries(kids[2], T)
+    if k == "ArraySubscriptExpr" and kids:
+        return _c_carries(kids[0], T)
+    if k == "UnaryOperator" and kids and n.get("opcode") in ("&", "*", "++", "--"):
+        return _c_carries(kids[0], T)
+    if k == "BinaryOperator" and len(kids) == 2:
+        op = n.get("opcode")
+        if op in ("+", "-"):
+            return _c_texty(n) and (_c_carries(kids[0], T) or _c_carries(kids[1], T))
+        if op in (",", "="):
+            return _c_carries(kids[1], T)
+    return False
+
+
+def _c_text_holders(decl, seeds):
+    """the locals / members of `this` that (may) hold the text held by the seeds somewhere in the function: closed under
+    initialisation, assignment, string building and the C copy primitives (flow-insensitive: more holders, never fewer)"""
+    T = set(seeds)
+    nodes = list(cfront.walk(decl))
+    for _ in range(8):
+        before = len(T)
+        for x in nodes:
+            k = x.get("kind")
+            kids = _c_kids(x)
+            if k == "VarDecl" and x.get("name") and kids and _c_carries(kids[-1], T):
+                T.add(("l", x["name"]))
+            elif k in ("BinaryOperator", "CompoundAssignOperator") and len(kids) == 2 and x.get("opcode") in ("=", "+="):
+                key = _c_lkey(kids[0])
+                if key is not None and _c_carries(kids[1], T):
+                    T.add(key)
+            elif k == "CXXOperatorCallExpr" and len(kids) >= 3 and cfront.callee_name(x) in ("operator=", "operator+=", "operator<<"):
+                key = _c_lkey(kids[1])
+                if key is not None and any(_c_carries(a, T) for a in kids[2:]):
+                    T.add(key)
+            elif k == "CXXMemberCallExpr" and kids:
+                c = cfront.strip(kids[0])
+                if c.get("kind") == "MemberExpr" and c.get("name") in _C_STORE_METHODS and any(_c_carries(a, T) for a in kids[1:]):
+                    key = _c_lkey(_c_inner(c)) if _c_inner(c) is not None else None
+                    if key is not None:
+                        T.add(key)
+            elif k == "CallExpr" and kids:
+                nm = cfront.callee_name(x)
+                args = kids[1:]
+                if nm in _C_COPY_PRIMS and len(args) >= 2 and _c_carries(args[1], T):
+                    key = _c_lkey(args[0])
+                    if key is not None:
+                        T.add(key)
+                elif nm in FMT_PRIMS and args and any(_c_carries(a, T) for a in args[1:]):
+                    key = _c_lkey(args[0])
+                    if key is not None:
+                        T.add(key)
+        if len(T) == before:
+            break
+    return T
+
+
+def _c_length_of(n, T, defnodes, depth=0):
+    """does the expression mention the length of a text holder (x.size() / x.length() / strlen(x)), directly or through a local
+    that is defined once?"""
+    for x in cfront.walk(n):
+        k = x.get("kind")
+        kids = _c_kids(x)
+        if k == "CXXMemberCallExpr" and kids:
+            c = cfront.strip(kids[0])
+            if c.get("kind") == "MemberExpr" and c.get("name") in ("size", "length") and _c_inner(c) is not None and _c_carries(_c_inner(c), T):
+                return True
+        elif k == "CallExpr" and kids and cfront.callee_name(x) in ("strlen", "strnlen") and len(kids) >= 2 and _c_carries(kids[1], T):
+            return True
+        elif k == "DeclRefExpr" and depth < 3:
+            nm = x.get("referencedDecl", {}).get("name")
+            if nm in defnodes and _c_length_of(defnodes[nm], T, defnodes, depth + 1):
+                return True
+    return False
+
+
+def _c_text_sinks(ceff, decl, seeds, fname, depth=0, seen=None):
+    """[(kind, description, line)] for the places where the text held by the seeds reaches an output / formatting primitive in the
+    function or in the helpers the text is handed to.  kind: 'format' (the text is the format of a printf-family call),
+    'verbatim' (written as data, whole), 'cut' (written through a precision that cuts it), 'unknown' (written in a way that is
+    not recognised)"""
+    seen = set() if seen is None else seen
+    sig = (id(decl), frozenset(seeds))
+    if sig in seen:
+        return []
+    seen.add(sig)
+    T = _c_text_holders(decl, seeds)
+    defnodes = _c_local_def_nodes(decl)
+    out = []
+    formatted_by_text = set()       # buffers filled by s[n]printf with the text as the format
+    is_method = decl.get("kind") in ("CXXMethodDecl", "CXXConstructorDecl")
+    for c in cfront.calls_in(decl):
+        nm = cfront.callee_name(c)
+        args = cfront.call_args(c)
+        line = c.get("line", 0)
+        if nm in FMT_PRIMS:
+            fi_ = 1 if nm == "sprintf" else 2
+            if len(args) > fi_ and _c_carries(args[fi_], T):
+                key = _c_lkey(args[0])
+                if key is not None:
+                    formatted_by_text.add(key)
+    for c in cfront.calls_in(decl):
+        nm = cfront.callee_name(c)
+        args = cfront.call_args(c)
+        line = c.get("line", 0)
+        at = "%s(), line %s" % (fname, line)
+        if nm in ("fprintf", "vfprintf"):
+            if len(args) < 2 or cfront.render(args[0]) in ("stderr", "stdout"):
+                continue
+            if _c_carries(args[1], T):
+                out.append(("format", "%s(%s, %s%s): the text is the FORMAT (every '%%' in it is interpreted) [%s]"
+                            % (nm, cfront.render(args[0]), cfront.render(args[1])[:40], ", ..." if len(args) > 2 else "", at), line))
+                continue
+            carried = [j for j in range(2, len(args)) if _c_carries(args[j], T)]
+            if not carried:
+                continue
+            lit = _CEff._lit(args[1])
+            if lit is None:
+                v = _c_arg_constant(ceff, decl, c, 1)
+                lit = v if isinstance(v, str) else None
+            if lit is None or nm == "vfprintf" or re.search(r"%[-+ #0]*\d*\.\*", lit):
+                out.append(("unknown", "%s with a format that is not a constant [%s]" % (nm, at), line))
+                continue
+            ai, slot = 2, {}
+            for d in printf_directives(lit)["directives"]:
+                if d["suppress"]:
+                    ai += 1
+                slot[ai] = d
+                ai += 1
+            for j in carried:
+                d = slot.get(j)
+                bad_buf = _c_lkey(args[j]) in formatted_by_text
+                if bad_buf:
+                    out.append(("format", "%s writes %s, which was formatted with the text as the FORMAT [%s]" % (nm, cfront.render(args[j])[:30], at), line))
+                elif d is None:
+                    out.append(("unknown", "%s(%r): no directive for the text operand [%s]" % (nm, lit, at), line))
+                elif d["conv"] == "s" and d["prec"] is not None and not d["length"]:
+                    out.append(("cut", "%s(%r): the precision cuts the text after %s bytes [%s]" % (nm, lit, d["prec"], at), line))
+                elif d["conv"] == "s" and d["width"] is None and not d["suppress"] and not d["length"] and not d["flags"]:
+                    out.append(("verbatim", "%s(%r, text) [%s]" % (nm, lit, at), line))
+                else:
+                    out.append(("unknown", "%s(%r): the text is the operand of %s [%s]" % (nm, lit, d["text"], at), line))
+            continue
+        if nm in ("fputs", "fputc", "putc", "fputs_unlocked", "fputc_unlocked"):
+            if len(args) >= 2 and cfront.render(args[-1]) not in ("stderr", "stdout") and _c_carries(args[0], T):
+                if _c_lkey(args[0]) in formatted_by_text:
+                    out.append(("format", "%s writes %s, which was formatted with the text as the FORMAT [%s]" % (nm, cfront.render(args[0])[:30], at), line))
+                else:
+                    out.append(("verbatim", "%s(text) [%s]" % (nm, at), line))
+            continue
+        if nm == "fwrite":
+            if len(args) == 4 and cfront.render(args[3]) not in ("stderr", "stdout") and _c_carries(args[0], T):
+                if _c_lkey(args[0]) in formatted_by_text:
+                    out.append(("format", "fwrite writes %s, which was formatted with the text as the FORMAT [%s]" % (cfront.render(args[0])[:30], at), line))
+                elif _c_length_of(args[1], T, defnodes) or _c_length_of(args[2], T, defnodes):
+                    out.append(("verbatim", "fwrite(text, .., its length) [%s]" % at, line))
+                else:
+                    out.append(("unknown", "fwrite(text) with a count that is not recognised as the length of the text [%s]" % at, line))
+            continue
+        if nm in FMT_PRIMS or nm in POS_PRIMS or nm in _C_COPY_PRIMS or not nm:
+            continue
+        d = ceff.lookup(nm)
+        if d is None or not cfront.has_body(d) or depth >= 3:
+            continue
+        params = cfront.params_of(d)
+        sub = {("l", params[i]) for i, a in enumerate(args) if i < len(params) and params[i] and _c_carries(a, T)}
+        if is_method and d.get("kind") in ("CXXMethodDecl",):
+            sub |= {t for t in T if t[0] == "m"}
+        if sub:
+            out.extend(_c_text_sinks(ceff, d, sub, nm, depth + 1, seen))
+    return out
+
+
+def _header_text_verbatim(chk, cfun, ceff):
+    who = cfun["Records::write_header_and_update_offset"]
+    where = "esutil/recfile/records.cpp:%s" % who.get("line", 0)
+    seeds = {("l", p) for p in cfront.params_of(who) if p}
+    try:
+        sinks = _c_text_sinks(ceff, who, seeds, "write_header_and_update_offset") if seeds else []
+    except (_TooBig, AnalysisError, RecursionError):
+        sinks = None
+    kinds = [k for k, _, _ in sinks] if sinks is not None else []
+    fm = [t for k, t, _ in (sinks or []) if k == "format"]
+    cut = [t for k, t, _ in (sinks or []) if k == "cut"]
+    unk = [t for k, t, _ in (sinks or []) if k == "unknown"]
+    okv = [t for k, t, _ in (sinks or []) if k == "verbatim"]
+    chk.ob("R03.4e", "Records::write_header_and_update_offset::header-text-never-a-format",
+           False if fm else (True if kinds else None), where,
+           "the header text given by the caller is never the format of a printf-family call (it is retained unchanged only if it is "
+           "written as data): %s" % (("VIOLATED: " + " | ".join(fm[:2])) if fm else
+                                     ("written by " + " | ".join((okv + cut + unk)[:3]) if kinds else
+                                      "no output call that takes the text was recognised")))
+    if fm and not cut:
+        return          # said above; how the text would be written otherwise is not the question any more
+    chk.ob("R03.4e", "Records::write_header_and_update_offset::header-text-written-whole",
+           False if cut else (True if okv and not unk and not fm else None), where,
+           "the header text is written whole, as the operand of a plain %%s / fputs / fputc / fwrite with its length: %s"
+           % (("VIOLATED: " + " | ".join(cut[:2])) if cut else
+              (" | ".join(okv[:3]) if okv and not unk and not fm else "not recognised: " + " | ".join((unk + fm)[:2] or ["no write of the text found"]))))
 
 
 def _short(seq):
@@ -4364,6 +4755,287 @@ def r03_7(chk, repo, Rec_write, measures, ceff=None):
     chk.ob("R03.7", "esutil.recfile.Util.Recfile.write::single-C++-write", per == [1], Rec_write.where(),
            "exactly one Records::Write call per Recfile.write (calls per normal path: %s)" % per)
     _text_chunk_native(chk, repo, Rec_write, paths, ceff)
+    _chunk_element_order(chk, Rec_write, paths, ceff)
+
+
+# -- R03.7 chunk-in-element-order ---------------------------------------------------------------------------------------------
+# Records::Write takes the data pointer of the array and emits mNrows records of mRowSize bytes from there on (one fwrite, or a
+# walk `mData += elsize`): it never looks at the strides.  The records of a chunk are therefore stored in the order in which they
+# lie in memory, and that is the order of the chunk's elements (what a read returns must be the chunks "in order") only for an
+# array that is C-contiguous.  So on every path of Recfile.write the array handed over must be known to be C-contiguous: made
+# by a numpy call that always returns such an array, or the caller's array (or a same-layout view of it) on a path whose
+# branch outcomes imply its C_CONTIGUOUS flag.  F-contiguity, or "either of the two", implies it only for 1-d chunks.
+_FLAG_WORDS = {"c_contiguous": "C", "contiguous": "C", "C_CONTIGUOUS": "C", "C": "C", "CONTIGUOUS": "C",
+               "f_contiguous": "F", "fortran": "F", "F_CONTIGUOUS": "F", "F": "F", "FORTRAN": "F",
+               "fnc": "FNC", "FNC": "FNC", "forc": "FORC", "FORC": "FORC"}
+_C_ORDER_BY_DEFAULT = ("zeros", "empty", "ones", "full", "arange", "fromiter", "frombuffer", "fromstring", "concatenate", "hstack",
+                       "vstack", "recarray")
+
+
+def _call_option(call, name, pos, names=None):
+    """(given?, value node) of an option of a call, by keyword or by position"""
+    for k in call.keywords:
+        if k.arg == name:
+            return True, k.value
+    if pos is not None and len(call.args) > pos and not any(isinstance(a, ast.Starred) for a in call.args[:pos + 1]):
+        return True, call.args[pos]
+    return False, None
+
+
+def _order_is_c(call, pos):
+    """True: order option absent or the constant 'C'; False: another constant; None: not a constant"""
+    if any(k.arg is None for k in call.keywords) or any(isinstance(a, ast.Starred) for a in call.args):
+        return None
+    given, v = _call_option(call, "order", pos)
+    if not given:
+        return True
+    if isinstance(v, ast.Constant):
+        return isinstance(v.value, str) and v.value.upper() == "C"
+    return None
+
+
+def _makes_c_contiguous(e):
+    """does the call expression always return a C-contiguous array, whatever the layout of its operand? True / False (no: the
+    layout follows the operand or an option) / None (depends on an option that is not a constant)"""
+    if not isinstance(e, ast.Call):
+        return False
+    lib = _lib_callee(e.func)
+    if lib is not None and lib.startswith("numpy."):
+        fn = lib[len("numpy."):]
+        if fn == "ascontiguousarray":
+            return True
+        if fn == "require":
+            given, v = _call_option(e, "requirements", 2)
+            if not given:
+                return False
+            words = [v] if isinstance(v, ast.Constant) else (list(v.elts) if isinstance(v, (ast.List, ast.Tuple, ast.Set)) else None)
+            if words is None or not all(isinstance(w, ast.Constant) and isinstance(w.value, str) for w in words):
+                return None
+            return any(w.value.upper() in ("C", "C_CONTIGUOUS", "CONTIGUOUS") for w in words)
+        if fn in ("array", "asarray", "asanyarray", "copy"):
+            # default order 'K' / 'A': the layout of the operand is kept
+            given, v = _call_option(e, "order", {"array": None, "asarray": 2, "asanyarray": 2, "copy": 1}[fn])
+            if not given:
+                return False
+            return (isinstance(v.value, str) and v.value.upper() == "C") if isinstance(v, ast.Constant) else None
+        if fn in _C_ORDER_BY_DEFAULT:
+            return _order_is_c(e, None)
+        return False
+    if lib is None and isinstance(e.func, ast.Attribute):
+        m = e.func.attr
+        if m in ("copy", "flatten", "ravel"):           # ndarray.copy / flatten / ravel: order='C' unless told otherwise
+            return _order_is_c(e, 0)
+        if m == "astype":
+            given, v = _call_option(e, "order", 1)
+            if not given:
+                return False
+            return (isinstance(v.value, str) and v.value.upper() == "C") if isinstance(v, ast.Constant) else None
+    return False
+
+
+def _layout_base(e):
+    """the array whose memory layout (strides, contiguity flags) the expression has: through .view(...), in-place byte swapping,
+    .newbyteorder(), numpy.asarray / asanyarray without options, whole-array slices"""
+    while True:
+        if isinstance(e, ast.Subscript):
+            sl = e.slice
+            if (isinstance(sl, ast.Slice) and sl.lower is None and sl.upper is None and (sl.step is None or const_value(sl.step) == 1)) \
+                    or (isinstance(sl, ast.Constant) and sl.value is Ellipsis):
+                e = e.value
+                continue
+            return e
+        if not isinstance(e, ast.Call):
+            return e
+        lib = _lib_callee(e.func)
+        if lib in ("numpy.asarray", "numpy.asanyarray") and len(e.args) == 1 and not e.keywords and not isinstance(e.args[0], ast.Starred):
+            e = e.args[0]
+            continue
+        if lib is None and isinstance(e.func, ast.Attribute):
+            m = e.func.attr
+            inplace = m == "byteswap" and ((len(e.args) == 1 and const_value(e.args[0]) is True)
+                                           or any(k.arg == "inplace" and const_value(k.value) is True for k in e.keywords))
+            if m in ("view", "newbyteorder") or inplace:
+                e = e.func.value
+                continue
+        return e
+
+
+def _layout_formula(e, chunk):
+    """a test over the contiguity flags of the chunk as a formula over the atoms C / F: ('atom', 'C'), ('not', f), ('and', [f..]),
+    ('or', [f..]), ('const', b); None when the test is anything else"""
+    if isinstance(e, ast.Constant) and isinstance(e.value, bool):
+        return ("const", e.value)
+    if isinstance(e, ast.UnaryOp) and isinstance(e.op, ast.Not):
+        f = _layout_formula(e.operand, chunk)
+        return None if f is None else ("not", f)
+    if isinstance(e, ast.BoolOp):
+        fs = [_layout_formula(v, chunk) for v in e.values]
+        return None if any(f is None for f in fs) else ("and" if isinstance(e.op, ast.And) else "or", fs)
+    if isinstance(e, ast.Compare) and len(e.ops) == 1 and isinstance(e.ops[0], (ast.Eq, ast.NotEq, ast.Is, ast.IsNot)):
+        l, r = e.left, e.comparators[0]
+        if isinstance(l, ast.Constant):
+            l, r = r, l
+        if isinstance(r, ast.Constant) and isinstance(r.value, bool):
+            f = _layout_formula(l, chunk)
+            if f is None:
+                return None
+            return f if (r.value == isinstance(e.ops[0], (ast.Eq, ast.Is))) else ("not", f)
+        return None
+    if isinstance(e, ast.Call) and isinstance(e.func, ast.Name) and e.func.id == "bool" and len(e.args) == 1 and not e.keywords:
+        return _layout_formula(e.args[0], chunk)
+    word = arr = None
+    if isinstance(e, ast.Attribute) and isinstance(e.value, ast.Attribute) and e.value.attr == "flags":
+        word, arr = e.attr, e.value.value
+    elif isinstance(e, ast.Subscript) and isinstance(e.value, ast.Attribute) and e.value.attr == "flags" and isinstance(const_value(e.slice), str):
+        word, arr = const_value(e.slice), e.value.value
+    elif isinstance(e, ast.Call) and _lib_callee(e.func) == "numpy.isfortran" and len(e.args) == 1 and not e.keywords:
+        word, arr = "fnc", e.args[0]
+    if word is None or word not in _FLAG_WORDS:
+        return None
+    b = _layout_base(arr)
+    if not (isinstance(b, ast.Name) and b.id == chunk):
+        return None
+    w = _FLAG_WORDS[word]
+    if w == "FNC":
+        return ("and", [("atom", "F"), ("not", ("atom", "C"))])
+    if w == "FORC":
+        return ("or", [("atom", "F"), ("atom", "C")])
+    return ("atom", w)
+
+
+def _formula_value(f, env):
+    if f[0] == "const":
+        return f[1]
+    if f[0] == "atom":
+        return env[f[1]]
+    if f[0] == "not":
+        return not _formula_value(f[1], env)
+    vals = [_formula_value(x, env) for x in f[1]]
+    return all(vals) if f[0] == "and" else any(vals)
+
+
+def _only_under_dtype(e, chunk):
+    """does the chunk occur in the test only as <chunk or a same-layout view / copy of it>.dtype...: a test on the type of the
+    elements says nothing about how they lie in memory"""
+    ok = True
+
+    def visit(n, under):
+        nonlocal ok
+        if isinstance(n, ast.Name) and n.id == chunk:
+            ok = ok and under
+            return
+        if isinstance(n, ast.Attribute) and n.attr == "dtype":
+            visit(n.value, True)
+            return
+        if isinstance(n, ast.Call) and isinstance(n.func, ast.Attribute) and n.func.attr in ("view", "copy") and under:
+            visit(n.func.value, True)
+            for a in list(n.args) + [k.value for k in n.keywords]:
+                visit(a, False)
+            return
+        for c in ast.iter_child_nodes(n):
+            visit(c, False)
+
+    visit(e, False)
+    return ok
+
+
+def _split_conditional(e, depth=0):
+    """[(expression, [(test, outcome)])]: the alternatives of a (nested) conditional expression `a if t else b`, looked at through
+    the layout-preserving wrappers, each with the tests that select it"""
+    b = _layout_base(e)
+    if isinstance(b, ast.IfExp) and depth < 4:
+        out = []
+        for arm, truth in ((b.body, True), (b.orelse, False)):
+            for x, tests in _split_conditional(arm, depth + 1):
+                out.append((x, [(b.test, truth)] + tests))
+        return out
+    return [(e, [])]
+
+
+def _chunk_element_order(chk, Rec_write, paths, ceff):
+    key = "esutil.recfile.Util.Recfile.write::chunk-in-element-order"
+    chunk = Rec_write.params[1] if len(Rec_write.params) > 1 else "data"
+    # premise: nothing below Records::Write follows the strides of the array or repacks it
+    premise, why = True, ""
+    if ceff is not None and "Records::Write" in ceff.cfun:
+        try:
+            for nm, d in _c_reachable(ceff, ceff.cfun["Records::Write"]):
+                for x in cfront.walk(d):
+                    t = ""
+                    if x.get("kind") == "MemberExpr":
+                        t = x.get("name") or ""
+                    elif x.get("kind") in ("CallExpr", "CXXMemberCallExpr"):
+                        t = cfront.callee_name(x) or ""
+                        if not t and x.get("inner"):
+                            t = _c_text(x["inner"][0])
+                    elif x.get("kind") == "DeclRefExpr":
+                        t = x.get("referencedDecl", {}).get("name") or ""
+                    if re.search(r"^strides$|STRIDE|NpyIter|PyArray_(GETCONTIGUOUS|FromAny|CheckFromAny|FromArray|FROM_O|ContiguousFromAny|"
+                                 r"NewCopy|Copy|GETPTR|GetPtr|IterNew|Flatten|Ravel)|C_CONTIGUOUS|NPY_ARRAY_CARRAY|NPY_ARRAY_IN_ARRAY", t):
+                        premise, why = None, "%s uses %s" % (nm or "Records::Write", t)
+        except (AnalysisError, _TooBig):
+            premise, why = None, "the functions below Records::Write could not be enumerated"
+    else:
+        premise, why = None, "Records::Write not available"
+    verdict, bad, unknown, nw = True, [], [], 0
+    for st in paths:
+        for w in _calls(st, "Write"):
+            nw += 1
+            x = w["args"][0] if w["args"] else None
+            if x is None:
+                unknown.append("line %s: Write() without a positional argument" % w["line"])
+                continue
+            # walk from the argument towards the array it has the layout of
+            for x, tests in _split_conditional(x):
+                e = _layout_base(x)
+                made = _makes_c_contiguous(e)
+                if made is True:
+                    continue
+                if made is None:
+                    unknown.append("line %s: Write(%s): the order= / requirements= option is not a constant" % (w["line"], norm(x)[:60]))
+                    continue
+                if not (isinstance(e, ast.Name) and e.id == chunk):
+                    unknown.append("line %s: Write(%s): the layout of %s is not known" % (w["line"], norm(x)[:60], norm(e)[:40]))
+                    continue
+                # the caller's array as it is: which layouts can take this path?
+                forms, opaque, shown = [], [], []
+                known = []
+                for k, v, expr, _wh in st.facts[:w["nfacts"]]:
+                    if isinstance(expr, ast.AST):
+                        known.append((expr, v if _atom(expr)[1] else (not v)))
+                for expr, truth in known + tests:
+                    if not re.search(r"\b%s\b" % re.escape(chunk), norm(expr)):
+                        continue
+                    f = _layout_formula(expr, chunk)
+                    if f is not None:
+                        forms.append(f if truth else ("not", f))
+                        shown.append("`%s` is %s" % (norm(expr)[:80], truth))
+                    elif not _only_under_dtype(expr, chunk):
+                        opaque.append(norm(expr)[:80])
+                witnesses = [env for env in (dict(C=False, F=False), dict(C=False, F=True)) if all(_formula_value(f, env) for f in forms)]
+                if not witnesses:
+                    continue        # every chunk that takes this path has its C_CONTIGUOUS flag set
+                if opaque:
+                    unknown.append("line %s: Write(%s) on a path guarded by a test on the chunk that is not understood (`%s`)"
+                                   % (w["line"], norm(x)[:50], opaque[0]))
+                    continue
+                wit = witnesses[-1]
+                bad.append("line %s: Write(%s) gets the caller's array as it lies in memory %s; a chunk that is %s takes this path and its "
+                           "records are stored in memory order, not element order"
+                           % (w["line"], norm(x)[:50], ("on the path where [%s]" % "; ".join(shown)[:200]) if shown else "unconditionally",
+                              "Fortran-contiguous with ndim >= 2 (a transposed table)" if wit["F"] else "a strided view (neither C- nor F-contiguous)"))
+    if bad and premise is True:
+        verdict = False
+    elif bad or unknown or premise is None or not nw:
+        verdict = None
+    notes = sorted(set(bad))[:2] or sorted(set(unknown))[:2]
+    chk.ob("R03.7", key, verdict, Rec_write.where(),
+           "%son every path of Recfile.write (%d Write call(s) on %d path(s)) the array handed to Records::Write is C-contiguous (made by "
+           "ascontiguousarray / copy() / order='C', or the path implies the chunk's C_CONTIGUOUS flag): Records::Write emits the records "
+           "in memory order from the data pointer%s"
+           % (("chunk NOT in element order: " + " | ".join(notes) + " -- rule: ") if bad else
+              (("not decided: " + " | ".join(notes) + " -- rule: ") if unknown else ""),
+              nw, len(paths), "" if premise is True else " [premise not established: %s]" % why))
 
 
 # -- R03.7 text-chunk-native ------------------------------------------------------------------------------------------------
